@@ -273,7 +273,12 @@ class QuicPacketRecovery:
         if packet.is_ack_eliciting:
             space.ack_eliciting_in_flight += 1
         if packet.in_flight:
-            if packet.is_ack_eliciting:
+            if packet.is_ack_eliciting and not (
+                space is self.spaces[-1]
+                and any(s.ack_eliciting_in_flight for s in self.spaces[:-1])
+            ):
+                # While Initial or Handshake packets are in flight, application
+                # data packets do not restart the probe timer.
                 self._time_of_last_sent_ack_eliciting_packet = packet.sent_time
 
             # add packet to bytes in flight
